@@ -11,6 +11,7 @@ arriving over an HTTP/1.1 connection the conjunct follows from the `upgrade: web
 (that step is hyper's, it is exercised by the harness over a real connection, not proved here).
 -/
 import Penguin.Model.Gate
+import Penguin.Lemmas.ClientReq
 
 namespace Penguin.C14
 open Penguin Penguin.Gate Penguin.Constants
@@ -309,5 +310,521 @@ example : respond cfgOpen { good with path := "/health" } = { status := 200, hea
 example : (respond cfgOpen good).status = 101 := by decide +kernel
 
 end Examples
+
+/-! ## The client's half: the request `handshake_inner` builds, judged by this gate
+
+`Penguin.Model.ClientReq` mirrors `client/ws_connect.rs:47-69` (tungstenite's request for the server URL,
+then `HeaderMap::insert` of the protocol, the key, the host name and every `--header`).  The theorems
+below join the two components: they are about `route srv (buildRequest c key)`, the SERVER's decision
+on the request the CLIENT builds, for every pair of configurations and every key tungstenite may draw. -/
+
+section ClientRequest
+open Penguin.ClientReq
+
+/-- The header names `ws_handler` looks at. -/
+def gateNames : List String :=
+  ["connection", "upgrade", "sec-websocket-key", "sec-websocket-version", "sec-websocket-protocol", "x-penguin-psk"]
+
+/-- No `--header` of the client names a header the gate looks at. -/
+def NoGateOverride (c : ClientCfg) : Prop := ∀ e ∈ c.custom, e.1 ∉ gateNames
+
+/-- The literals extracted from the client's source are the ones extracted from the server's: same
+    header names; and both sides take the protocol value from the one `PROTOCOL_VERSION` (`protocolName`). -/
+theorem client_and_server_literals_agree :
+    clientProtocolHeader = hProtocol ∧ clientPskHeader = pskHeaderName ∧ tungSubprotocolHeader = hProtocol ∧
+    tungMethod = methodGet ∧ tungBuilderHeaders.map (·.1) = ["host", hConnection, hUpgrade, hVersion, hKey] ∧
+    tungTextHeaders = tungBuilderHeaders.map (·.1) ∧ clientInsertOrderProtocolPskHostCustom = true := by
+  decide
+
+/-- What the header map holds under `n` before the custom headers are applied. -/
+private def stdValue (c : ClientCfg) (key : Bytes) (n : String) : Option Bytes :=
+  if clientHostHeader = n ∧ c.hostname.isSome = true then c.hostname
+  else if clientPskHeader = n ∧ c.psk.isSome = true then c.psk
+  else if clientProtocolHeader = n then some (asciiBytes protocolName)
+  else Gate.get (baseHeaders c.urlHost key) n
+
+private theorem get_build (c : ClientCfg) (key : Bytes) (n : String) :
+    Gate.get (buildHeaders c key) n =
+      match lastOf c.custom n with
+      | some v => some v
+      | none => stdValue c key n := by
+  unfold buildHeaders
+  simp only [get_insertAll]
+  cases lastOf c.custom n with
+  | some v => rfl
+  | none =>
+    simp only [stdValue]
+    cases c.hostname <;> cases c.psk <;> simp only [get_insert, Option.isSome] <;>
+      (repeat' split) <;> simp_all
+
+/-- **The header map after all inserts**, for every configuration: under any name the last `--header`
+    of that name if there is one; else `--hostname` under `host`, `--ws-psk` under `x-penguin-psk`,
+    the protocol version under `sec-websocket-protocol`, and tungstenite's own headers otherwise. -/
+theorem client_request_header_view (c : ClientCfg) (key : Bytes) (n : String) :
+    (buildRequest c key).get n =
+      match lastOf c.custom n with
+      | some v => some v
+      | none =>
+        if n = "host" ∧ c.hostname.isSome = true then c.hostname
+        else if n = "x-penguin-psk" ∧ c.psk.isSome = true then c.psk
+        else if n = "sec-websocket-protocol" then some (asciiBytes protocolName)
+        else Gate.get (baseHeaders c.urlHost key) n := by
+  show Gate.get (buildHeaders c key) n = _
+  rw [get_build]
+  cases lastOf c.custom n with
+  | some v => rfl
+  | none =>
+    simp only [stdValue, clientHostHeader, clientPskHeader, clientProtocolHeader, eq_comm (b := n)]
+
+private theorem lastOf_none_of_noOverride (c : ClientCfg) (h : NoGateOverride c) (n : String) (hn : n ∈ gateNames) :
+    lastOf c.custom n = none :=
+  lastOf_none_of_not_mem _ _ fun e he heq => h e he (heq ▸ hn)
+
+/-- **What the gate will read**, when no `--header` names a gate header: tungstenite's `Upgrade`,
+    `websocket`, `13` and the drawn key, the protocol version the server wants, and `--ws-psk` (or nothing). -/
+theorem client_request_gate_values (c : ClientCfg) (key : Bytes) (h : NoGateOverride c) :
+    (buildRequest c key).get "connection" = some (asciiBytes "Upgrade") ∧
+    (buildRequest c key).get "upgrade" = some (asciiBytes "websocket") ∧
+    (buildRequest c key).get "sec-websocket-version" = some (asciiBytes "13") ∧
+    (buildRequest c key).get "sec-websocket-key" = some key ∧
+    (buildRequest c key).get "sec-websocket-protocol" = some (asciiBytes protocolName) ∧
+    (buildRequest c key).get "x-penguin-psk" = c.psk := by
+  have hv : ∀ n, n ∈ gateNames → (buildRequest c key).get n = stdValue c key n := by
+    intro n hn
+    show Gate.get (buildHeaders c key) n = _
+    rw [get_build, lastOf_none_of_noOverride c h n hn]
+  refine ⟨?_, ?_, ?_, ?_, ?_, ?_⟩
+  · rw [hv _ (by decide)]; simp [stdValue, clientHostHeader, clientPskHeader, clientProtocolHeader, baseHeaders, tungBuilderHeaders, Gate.get]
+  · rw [hv _ (by decide)]; simp [stdValue, clientHostHeader, clientPskHeader, clientProtocolHeader, baseHeaders, tungBuilderHeaders, Gate.get]
+  · rw [hv _ (by decide)]; simp [stdValue, clientHostHeader, clientPskHeader, clientProtocolHeader, baseHeaders, tungBuilderHeaders, Gate.get]
+  · rw [hv _ (by decide)]; simp [stdValue, clientHostHeader, clientPskHeader, clientProtocolHeader, baseHeaders, tungBuilderHeaders, Gate.get]
+  · rw [hv _ (by decide)]; simp [stdValue, clientHostHeader, clientPskHeader, clientProtocolHeader]
+  · rw [hv _ (by decide)]
+    cases hp : c.psk <;> simp [hp, stdValue, clientHostHeader, clientPskHeader, clientProtocolHeader, baseHeaders, tungBuilderHeaders, Gate.get]
+
+/-- **The request is well formed**, for every configuration (custom headers included): method `GET`,
+    `OnUpgrade` attached, at most one value under any name (every step is an `insert`), and exactly one
+    under `host`, the four headers the gate compares, the key and the protocol. -/
+theorem client_request_well_formed (c : ClientCfg) (key : Bytes) :
+    (buildRequest c key).method = "GET" ∧ (buildRequest c key).onUpgrade = true ∧
+    (buildRequest c key).path = pathOfTarget c.target ∧
+    (∀ n, (valuesOf (buildRequest c key).headers n).length ≤ 1) ∧
+    (∀ n ∈ ["host", "connection", "upgrade", "sec-websocket-version", "sec-websocket-key", "sec-websocket-protocol"],
+      ∃ v, valuesOf (buildRequest c key).headers n = [v]) := by
+  have hnames : (baseHeaders c.urlHost key).map (·.1) = tungBuilderHeaders.map (·.1) := by
+    simp [baseHeaders, List.map_map, Function.comp_def]
+  have hbase : ∀ n, (valuesOf (baseHeaders c.urlHost key) n).length ≤ 1 := fun n =>
+    valuesOf_length_le_one _ n (by rw [hnames]; decide)
+  have hall : ∀ n, valuesOf (buildRequest c key).headers n =
+      match lastOf c.custom n with
+      | some v => [v]
+      | none =>
+        if clientHostHeader = n ∧ c.hostname.isSome = true then c.hostname.toList
+        else if clientPskHeader = n ∧ c.psk.isSome = true then c.psk.toList
+        else if clientProtocolHeader = n then [asciiBytes protocolName]
+        else valuesOf (baseHeaders c.urlHost key) n := by
+    intro n
+    show valuesOf (buildHeaders c key) n = _
+    unfold buildHeaders
+    simp only [valuesOf_insertAll]
+    cases lastOf c.custom n with
+    | some v => rfl
+    | none =>
+      cases c.hostname <;> cases c.psk <;> simp only [valuesOf_insert, Option.isSome, Option.toList] <;>
+        (repeat' split) <;> simp_all
+  refine ⟨rfl, rfl, rfl, ?_, ?_⟩
+  · intro n
+    rw [hall]
+    cases lastOf c.custom n with
+    | some v => simp
+    | none =>
+      simp only
+      (repeat' split) <;> first | exact hbase n | (cases c.hostname <;> simp_all) | (cases c.psk <;> simp_all) | simp
+  · intro n hn
+    rw [hall]
+    cases lastOf c.custom n with
+    | some v => exact ⟨v, rfl⟩
+    | none =>
+      simp only [List.mem_cons, List.not_mem_nil, or_false] at hn
+      rcases hn with rfl | rfl | rfl | rfl | rfl | rfl <;>
+        cases c.hostname <;> cases c.psk <;>
+        simp [clientHostHeader, clientPskHeader, clientProtocolHeader, baseHeaders, tungBuilderHeaders, valuesOf]
+
+/-- The decision on a request the gate reads these values from. -/
+private theorem route_of_view (srv : Config) (r : Request) (k : Bytes)
+    (hm : r.method = methodGet) (hp : r.path = pathWs) (hu : r.onUpgrade = true)
+    (h1 : headerMatches (r.get hConnection) hdrUpgradeValue = true)
+    (h2 : headerMatches (r.get hUpgrade) hdrWebsocketValue = true)
+    (h3 : headerMatches (r.get hVersion) hdrWebsocketVersionValue = true)
+    (h4 : headerMatches (r.get hProtocol) protocolName = true)
+    (hk : r.get hKey = some k) :
+    route srv r = if srv.psk = none ∨ r.get pskHeaderName = srv.psk then .upgrade (acceptOf k) else .fallback := by
+  rw [route_ws srv r hp]
+  unfold wsDecision wsCheck
+  by_cases hpsk : srv.psk = none ∨ r.get pskHeaderName = srv.psk
+  · have hn : ¬ (srv.psk.isSome = true ∧ r.get pskHeaderName ≠ srv.psk) := by
+      rcases hpsk with h | h
+      · simp [h]
+      · simp [h]
+    simp [hm, hn, hk, h1, h2, h3, h4, hu, hpsk]
+  · have hn : srv.psk.isSome = true ∧ r.get pskHeaderName ≠ srv.psk := by
+      cases hs : srv.psk with
+      | none => exact absurd (Or.inl hs) hpsk
+      | some p => exact ⟨rfl, fun h => hpsk (Or.inr (hs ▸ h))⟩
+    have hne : srv.psk ≠ none := fun h => hpsk (Or.inl h)
+    simp [hm, hn, hne]
+
+/-- **The server's decision on the client's request**, for every pair of configurations and every
+    key: a tunnel, answered with the accept hash of the client's own key, if the server has no key or
+    the two keys are the same byte string; the fallback otherwise.  (`c.psk = none` differs from every
+    configured key: a client without `--ws-psk` never gets past a server with one.) -/
+theorem client_request_decision (srv : Config) (c : ClientCfg) (key : Bytes)
+    (ho : NoGateOverride c) (hp : pathOfTarget c.target = pathWs) :
+    route srv (buildRequest c key) =
+      if srv.psk = none ∨ srv.psk = c.psk then .upgrade (acceptOf key) else .fallback := by
+  obtain ⟨g1, g2, g3, g4, g5, g6⟩ := client_request_gate_values c key ho
+  have hc := client_and_server_literals_agree
+  rw [route_of_view srv (buildRequest c key) key hc.2.2.2.1 hp rfl
+    (by rw [show hConnection = "connection" from rfl, g1]; decide)
+    (by rw [show hUpgrade = "upgrade" from rfl, g2]; decide)
+    (by rw [show hVersion = "sec-websocket-version" from rfl, g3]; decide)
+    (by rw [show hProtocol = "sec-websocket-protocol" from rfl, g5]; simp [headerMatches, (eqIgnoreAsciiCase_iff _ _).mpr])
+    (by rw [show hKey = "sec-websocket-key" from rfl, g4])]
+  rw [show pskHeaderName = "x-penguin-psk" from rfl, g6]
+  simp only [eq_comm (a := c.psk)]
+
+/-- **A client with the right key always gets in, a client with a wrong or no key never does, a client
+    that sends a key to a key-less server gets in**: for every client configuration whose `--header`s
+    leave the gate's headers alone and whose URL names the tunnel path, every server configuration and
+    every key, the server opens a tunnel and answers with the accept hash of that key if and only if it
+    has no pre-shared key or has exactly the client's. -/
+theorem client_request_opens_tunnel_iff (srv : Config) (c : ClientCfg) (key : Bytes)
+    (ho : NoGateOverride c) (hp : pathOfTarget c.target = pathWs) :
+    route srv (buildRequest c key) = .upgrade (acceptOf key) ↔ (srv.psk = none ∨ srv.psk = c.psk) := by
+  rw [client_request_decision srv c key ho hp]
+  by_cases h : srv.psk = none ∨ srv.psk = c.psk <;> simp [h]
+
+/-- … and no other accept hash is ever sent for it, so: no tunnel at all unless the keys agree. -/
+theorem client_request_tunnel_only_if_keys_agree (srv : Config) (c : ClientCfg) (key h : Bytes)
+    (ho : NoGateOverride c) (hp : pathOfTarget c.target = pathWs)
+    (hu : route srv (buildRequest c key) = .upgrade h) :
+    h = acceptOf key ∧ (srv.psk = none ∨ srv.psk = c.psk) := by
+  rw [client_request_decision srv c key ho hp] at hu
+  by_cases hk : srv.psk = none ∨ srv.psk = c.psk
+  · simp only [hk, if_true, Decision.upgrade.injEq] at hu
+    exact ⟨hu.symm, hk⟩
+  · simp [hk] at hu
+
+/-- **The handshake completes exactly when the keys agree** (model of the black box on the client's
+    side: tungstenite's `verify_response`, which wants status 101, `upgrade`/`connection`, the accept
+    hash of the key it sent and one of the subprotocols it asked for): without a backend (whose answers
+    are its own) the client accepts the server's answer to its request iff the server has no key or the
+    client's.  The 101 carries `acceptOf key` and `penguin-v7`, which is what the client checks. -/
+theorem handshake_completes_iff (srv : Config) (c : ClientCfg) (key : Bytes)
+    (ho : NoGateOverride c) (hp : pathOfTarget c.target = pathWs) (hb : srv.backend = none) :
+    clientAccepts (buildRequest c key).headers (respond srv (buildRequest c key)) = true ↔
+      (srv.psk = none ∨ srv.psk = c.psk) := by
+  obtain ⟨_, _, _, g4, g5, _⟩ := client_request_gate_values c key ho
+  have g4' : Gate.get (buildRequest c key).headers hKey = some key := g4
+  have g5' : Gate.get (buildRequest c key).headers tungSubprotocolHeader = some (asciiBytes protocolName) := g5
+  unfold respond
+  rw [client_request_decision srv c key ho hp]
+  by_cases hk : srv.psk = none ∨ srv.psk = c.psk
+  · simp only [hk, if_true, iff_true]
+    unfold clientAccepts
+    rw [g4', g5']
+    have hsub : (splitComma (asciiBytes protocolName)).map trimOws = [asciiBytes protocolName] := by decide
+    simp only [Option.map, hsub, upgradeResponse, Option.getD]
+    have e1 : Gate.get [(hConnection, asciiBytes hdrUpgradeValue), (hUpgrade, asciiBytes hdrWebsocketValue),
+        (hProtocol, asciiBytes protocolName), (hAccept, acceptOf key)] hUpgrade = some (asciiBytes hdrWebsocketValue) := by
+      simp [Gate.get, hConnection, hUpgrade]
+    have e2 : Gate.get [(hConnection, asciiBytes hdrUpgradeValue), (hUpgrade, asciiBytes hdrWebsocketValue),
+        (hProtocol, asciiBytes protocolName), (hAccept, acceptOf key)] hConnection = some (asciiBytes hdrUpgradeValue) := by
+      simp [Gate.get]
+    have e3 : Gate.get [(hConnection, asciiBytes hdrUpgradeValue), (hUpgrade, asciiBytes hdrWebsocketValue),
+        (hProtocol, asciiBytes protocolName), (hAccept, acceptOf key)] hAccept = some (acceptOf key) := by
+      simp [Gate.get, hConnection, hUpgrade, hProtocol, hAccept]
+    have e4 : Gate.get [(hConnection, asciiBytes hdrUpgradeValue), (hUpgrade, asciiBytes hdrWebsocketValue),
+        (hProtocol, asciiBytes protocolName), (hAccept, acceptOf key)] hProtocol = some (asciiBytes protocolName) := by
+      simp [Gate.get, hConnection, hUpgrade, hProtocol]
+    have t1 : textIs (some (asciiBytes hdrWebsocketValue)) "websocket" = true := by decide
+    have t2 : textIs (some (asciiBytes hdrUpgradeValue)) "Upgrade" = true := by decide
+    rw [e1, e2, e3, e4, t1, t2]
+    have e5 : toStrOk (asciiBytes protocolName) = true := by decide
+    simp [statusSwitchingProtocols, e5]
+  · simp only [hk, if_false, iff_false]
+    simp [clientAccepts, fallbackResponse, hb, notFoundResponse, statusNotFound]
+
+/-- **A `--header x-penguin-psk: v` given last REPLACES the configured key** (the last insert wins):
+    whatever `--ws-psk` says, the request presents `v`. -/
+theorem custom_psk_header_replaces_key (c : ClientCfg) (key v : Bytes) :
+    (buildRequest { c with custom := c.custom ++ [("x-penguin-psk", v)] } key).get "x-penguin-psk" = some v := by
+  rw [client_request_header_view, lastOf_append_single]
+
+/-- The configuration of the witnesses below: right key `K1`, URL `…/ws`, no custom header. -/
+def witnessClient : ClientCfg :=
+  { target := "/ws", urlHost := asciiBytes "server.example:443", psk := some (asciiBytes "K1"), hostname := none, custom := [] }
+
+def witnessServer (k : String) : Config :=
+  { psk := some (asciiBytes k), obfs := false, notFound := asciiBytes "nf", backend := none }
+
+def witnessKey : Bytes := asciiBytes "dGhlIHNhbXBsZSBub25jZQ=="
+
+/-- **Custom headers can break the handshake or fake the key** - consequences of the insert order, stated
+    as they are: with the right key `K1` the client gets in; the same client with `--header
+    sec-websocket-protocol: other` or `--header upgrade: h2c` gets the fallback (404) from the same server;
+    with `--header x-penguin-psk: K2` it is refused by the `K1` server although `--ws-psk K1` is right, and
+    admitted by a `K2` server although `--ws-psk K1` is wrong. -/
+theorem custom_header_can_break_or_fake :
+    route (witnessServer "K1") (buildRequest witnessClient witnessKey) = .upgrade (acceptOf witnessKey) ∧
+    route (witnessServer "K1")
+      (buildRequest { witnessClient with custom := [("sec-websocket-protocol", asciiBytes "other")] } witnessKey) = .fallback ∧
+    route (witnessServer "K1")
+      (buildRequest { witnessClient with custom := [("upgrade", asciiBytes "h2c")] } witnessKey) = .fallback ∧
+    route (witnessServer "K1")
+      (buildRequest { witnessClient with custom := [("x-penguin-psk", asciiBytes "K2")] } witnessKey) = .fallback ∧
+    route (witnessServer "K2")
+      (buildRequest { witnessClient with custom := [("x-penguin-psk", asciiBytes "K2")] } witnessKey) = .upgrade (acceptOf witnessKey) := by
+  decide +kernel
+
+/-- The decision depends on the request through its method, path, `OnUpgrade` and the six gate headers only. -/
+private theorem route_congr (srv : Config) (r r' : Request) (hm : r.method = r'.method) (hp : r.path = r'.path)
+    (hu : r.onUpgrade = r'.onUpgrade) (hg : ∀ n ∈ gateNames, r.get n = r'.get n) : route srv r = route srv r' := by
+  have h1 : r.get hConnection = r'.get hConnection := hg _ (by decide)
+  have h2 : r.get hUpgrade = r'.get hUpgrade := hg _ (by decide)
+  have h3 : r.get hVersion = r'.get hVersion := hg _ (by decide)
+  have h4 : r.get hProtocol = r'.get hProtocol := hg _ (by decide)
+  have h5 : r.get hKey = r'.get hKey := hg _ (by decide)
+  have h6 : r.get pskHeaderName = r'.get pskHeaderName := hg _ (by decide)
+  simp only [route, wsDecision, wsCheck, hm, hp, hu, h1, h2, h3, h4, h5, h6]
+
+/-- **`--hostname` changes nothing the gate looks at**: under every name but `host` the request holds
+    what it held, and every server decides on it as before. -/
+theorem hostname_only_changes_host (c : ClientCfg) (key : Bytes) (h : Option Bytes) :
+    (∀ n, n ≠ "host" → (buildRequest { c with hostname := h } key).get n = (buildRequest c key).get n) ∧
+    (∀ srv, route srv (buildRequest { c with hostname := h } key) = route srv (buildRequest c key)) := by
+  have hv : ∀ n, n ≠ "host" → (buildRequest { c with hostname := h } key).get n = (buildRequest c key).get n := by
+    intro n hn
+    rw [client_request_header_view, client_request_header_view]
+    simp [hn]
+  refine ⟨hv, fun srv => route_congr srv _ _ rfl rfl rfl fun n hn => hv n ?_⟩
+  intro heq
+  rw [heq] at hn
+  exact absurd hn (by decide)
+
+/-! ### What travels: the request as the server's parser hands it on, and keys from the command line -/
+
+/-- `sent` writes the request `buildRequest` describes or nothing at all. -/
+theorem sent_is_the_built_request (c : ClientCfg) (key : Bytes) (r : Request) (h : sent c key = .ok r) :
+    r = buildRequest c key := by
+  unfold sent at h
+  split at h
+  · cases h
+  · dsimp only at h
+    split at h
+    · cases h
+    · injection h with h; exact h.symm
+
+/-- **On the wire** a header value loses its outer blanks (RFC 9110 5.5; hyper's parser): the server opens
+    the tunnel for the client's request as it ARRIVES iff it has no key or its key is the client's
+    without the blanks around it.  So a key kept with such padding on both sides would never match. -/
+theorem received_request_opens_tunnel_iff (srv : Config) (c : ClientCfg) (key : Bytes)
+    (ho : NoGateOverride c) (hp : pathOfTarget c.target = pathWs) :
+    route srv (received (buildRequest c key)) = .upgrade (acceptOf (trimOws key)) ↔
+      (srv.psk = none ∨ srv.psk = c.psk.map trimOws) := by
+  obtain ⟨g1, g2, g3, g4, g5, g6⟩ := client_request_gate_values c key ho
+  have hc := client_and_server_literals_agree
+  rw [route_of_view srv (received (buildRequest c key)) (trimOws key) hc.2.2.2.1 hp rfl
+    (by rw [get_received, show hConnection = "connection" from rfl, g1]; decide)
+    (by rw [get_received, show hUpgrade = "upgrade" from rfl, g2]; decide)
+    (by rw [get_received, show hVersion = "sec-websocket-version" from rfl, g3]; decide)
+    (by rw [get_received, show hProtocol = "sec-websocket-protocol" from rfl, g5]; decide)
+    (by rw [get_received, show hKey = "sec-websocket-key" from rfl, g4]; rfl)]
+  rw [get_received, show pskHeaderName = "x-penguin-psk" from rfl, g6]
+  by_cases h : srv.psk = none ∨ srv.psk = Option.map trimOws c.psk
+  · have h' : srv.psk = none ∨ Option.map trimOws c.psk = srv.psk := h.imp id Eq.symm
+    simp [h, h']
+  · have h' : ¬ (srv.psk = none ∨ Option.map trimOws c.psk = srv.psk) := fun x => h (x.imp id Eq.symm)
+    simp [h, h']
+
+/-- The key `--ws-psk <text>` configures has no blanks around it, on either side (`parse_ws_psk`). -/
+theorem parsed_key_has_no_outer_blanks (text : Bytes) : NoOuterOws (parsePsk text) := by
+  have : parsePsk text = trimOws text := by simp [parsePsk, pskArgTrimsOws]
+  rw [this]
+  exact noOuter_trimOws text
+
+/-- **From the command line to the tunnel**: with the client's key as `--ws-psk` configures it, the
+    server opens the tunnel for the request as it arrives iff it has no key or the two configured keys
+    are equal - the white space rule of the wire cannot come between two equal keys. -/
+theorem command_line_keys_open_tunnel_iff (srv : Config) (c : ClientCfg) (key : Bytes) (tc : Option Bytes)
+    (ho : NoGateOverride c) (hp : pathOfTarget c.target = pathWs) (hcl : c.psk = tc.map parsePsk) :
+    route srv (received (buildRequest c key)) = .upgrade (acceptOf (trimOws key)) ↔
+      (srv.psk = none ∨ srv.psk = c.psk) := by
+  rw [received_request_opens_tunnel_iff srv c key ho hp]
+  have : c.psk.map trimOws = c.psk := by
+    rw [hcl]
+    cases tc with
+    | none => rfl
+    | some t => simp [trimOws_of_noOuter _ (parsed_key_has_no_outer_blanks t)]
+  rw [this]
+
+/-- … in particular the same `--ws-psk <text>` typed on both sides, blanks around it or not, opens the
+    tunnel (it did not before `parse_ws_psk`: see the padded example below). -/
+theorem same_key_text_opens_tunnel (srv : Config) (c : ClientCfg) (key text : Bytes)
+    (ho : NoGateOverride c) (hp : pathOfTarget c.target = pathWs)
+    (hs : srv.psk = some (parsePsk text)) (hcl : c.psk = some (parsePsk text)) :
+    route srv (received (buildRequest c key)) = .upgrade (acceptOf (trimOws key)) :=
+  (command_line_keys_open_tunnel_iff srv c key (some text) ho hp hcl).mpr (Or.inr (hs.trans hcl.symm))
+
+/-! ### The server URL -/
+
+private theorem schemeRow_eq (s : String) :
+    schemeRow s = if s = "http" ∨ s = "ws" then some ("ws", 80)
+      else if s = "https" ∨ s = "wss" then some ("wss", 443) else none := by
+  simp only [schemeRow, urlSchemeTable, List.find?_cons, List.find?_nil, List.contains_cons, List.contains_nil,
+    Bool.or_false]
+  have e1 : (s == "http" || s == "ws") = decide (s = "http" ∨ s = "ws") := by
+    by_cases a : s = "http" <;> by_cases b : s = "ws" <;> simp [a, b]
+  have e2 : (s == "https" || s == "wss") = decide (s = "https" ∨ s = "wss") := by
+    by_cases a : s = "https" <;> by_cases b : s = "wss" <;> simp [a, b]
+  rw [e1, e2]
+  by_cases h1 : s = "http" ∨ s = "ws"
+  · simp [h1]
+  · by_cases h2 : s = "https" ∨ s = "wss"
+    · simp [h1, h2]
+    · simp [h1, h2]
+
+/-- `ServerUrl::from_str` accepts exactly the four schemes (spelled as `http::Uri` reports them: `http` and
+    `https` in any case, `ws` and `wss` in lower case only) with a host. -/
+theorem normalize_ok_iff (u : UrlParts) :
+    (∃ n, normalizeUrl u = .ok n) ↔
+      ((u.scheme = "http" ∨ u.scheme = "ws" ∨ u.scheme = "https" ∨ u.scheme = "wss") ∧ u.authority.isSome = true) := by
+  unfold normalizeUrl
+  rw [schemeRow_eq]
+  by_cases h1 : u.scheme = "http" ∨ u.scheme = "ws"
+  · have : u.scheme = "http" ∨ u.scheme = "ws" ∨ u.scheme = "https" ∨ u.scheme = "wss" := by
+      rcases h1 with h | h <;> simp [h]
+    cases ha : u.authority <;> simp [h1, this]
+  · by_cases h2 : u.scheme = "https" ∨ u.scheme = "wss"
+    · have : u.scheme = "http" ∨ u.scheme = "ws" ∨ u.scheme = "https" ∨ u.scheme = "wss" := by
+        rcases h2 with h | h <;> simp [h]
+      cases ha : u.authority <;> simp [h1, h2]
+    · have : ¬ (u.scheme = "http" ∨ u.scheme = "ws" ∨ u.scheme = "https" ∨ u.scheme = "wss") := by
+        intro h
+        rcases h with h | h | h | h
+        · exact h1 (Or.inl h)
+        · exact h1 (Or.inr h)
+        · exact h2 (Or.inl h)
+        · exact h2 (Or.inr h)
+      simp [h1, h2]
+
+/-- **Which path the client asks for**: the URL's own path and query, `/` if it has none - `/ws` is
+    neither forced nor appended.  The request reaches `ws_handler` iff the user's URL spells the
+    tunnel path; the scheme becomes one tungstenite takes (`ws`/`wss`), the port is added only when missing. -/
+theorem normalized_url_reaches_gate_path (u : UrlParts) (n : ServerUrl) (h : normalizeUrl u = .ok n) :
+    n.scheme ∈ tungSchemes ∧
+    n.target = u.pathAndQuery.getD "/" ∧
+    (n.addedPort.isSome = true ↔ u.hasPort = false) ∧
+    (pathOfTarget n.target = pathWs ↔ ∃ pq, u.pathAndQuery = some pq ∧ pathOfTarget pq = "/ws") := by
+  unfold normalizeUrl at h
+  have hrow : ∀ s p, schemeRow u.scheme = some (s, p) → s ∈ tungSchemes := by
+    intro s p hs
+    rw [schemeRow_eq] at hs
+    split at hs
+    · injection hs with hs; injection hs with hs _; subst hs; decide
+    · split at hs
+      · injection hs with hs; injection hs with hs _; subst hs; decide
+      · cases hs
+  cases hs : schemeRow u.scheme with
+  | none => simp [hs] at h
+  | some row =>
+    obtain ⟨s, p⟩ := row
+    cases ha : u.authority with
+    | none => simp [hs, ha] at h
+    | some a =>
+      simp only [hs, ha, Except.ok.injEq] at h
+      subst h
+      refine ⟨hrow s p hs, rfl, ?_, ?_⟩
+      · cases u.hasPort <;> simp
+      · cases hq : u.pathAndQuery with
+        | none =>
+          simp only [Option.getD, urlDefaultPathAndQuery]
+          constructor
+          · intro hx; exact absurd hx (by decide)
+          · rintro ⟨pq, hpq, _⟩; cases hpq
+        | some pq => simp [pathWs]
+
+/-- **A URL that does not spell the tunnel path never opens a tunnel**, whatever the keys: the
+    misconfiguration `penguin client ws://server 1080:…` (no `/ws`) is answered by the fallback handler
+    (a 404 or the backend), indistinguishable from a wrong key. -/
+theorem url_without_tunnel_path_never_opens_tunnel (srv : Config) (c : ClientCfg) (key : Bytes)
+    (hp : pathOfTarget c.target ≠ pathWs) : ∀ h, route srv (buildRequest c key) ≠ .upgrade h := by
+  intro h hu
+  exact hp ((upgrade_iff srv _ h).mp hu).2.1
+
+theorem url_without_path_gets_fallback (u : UrlParts) (n : ServerUrl) (h : normalizeUrl u = .ok n)
+    (hnone : u.pathAndQuery = none) (srv : Config) (c : ClientCfg) (key : Bytes) (hc : c.target = n.target) :
+    route srv (buildRequest c key) = .fallback := by
+  have ht := (normalized_url_reaches_gate_path u n h).2.1
+  rw [hnone] at ht
+  have hpath : (buildRequest c key).path = "/" := by
+    show pathOfTarget c.target = "/"
+    rw [hc, ht]; decide
+  exact (unknown_path_is_fallback srv _ (by rw [hpath]; unfold UnknownPath; decide)).1
+
+/-! ### Non-vacuity of the client theorems -/
+
+section ClientExamples
+
+private def cliOdd : ClientCfg :=
+  { target := "/ws?token=1", urlHost := asciiBytes "127.0.0.1:8080", psk := some (asciiBytes "correct PSK"),
+    hostname := some (asciiBytes "front.example"), custom := [("x-trace", asciiBytes "1"), ("host", asciiBytes "other.example")] }
+
+-- the hypotheses hold for a non-trivial configuration (a query, a host name, two custom headers) …
+example : NoGateOverride cliOdd := by unfold NoGateOverride; decide
+example : pathOfTarget cliOdd.target = pathWs := by decide
+-- … and fail for one that overrides a gate header
+example : ¬ NoGateOverride { cliOdd with custom := [("upgrade", asciiBytes "h2c")] } := by
+  unfold NoGateOverride; decide
+-- both sides of the iff occur
+example : route cfgPsk (buildRequest cliOdd witnessKey) = .upgrade (acceptOf witnessKey) := by decide +kernel
+example : route cfgPsk (buildRequest { cliOdd with psk := some (asciiBytes "correct psk") } witnessKey) = .fallback := by
+  decide +kernel
+example : route cfgPsk (buildRequest { cliOdd with psk := none } witnessKey) = .fallback := by decide +kernel
+example : route cfgOpen (buildRequest cliOdd witnessKey) = .upgrade (acceptOf witnessKey) := by decide +kernel
+-- the request itself: the last `host` wins over `--hostname`, which wins over the URL's host
+example : (buildRequest cliOdd witnessKey).headers =
+    [("host", asciiBytes "other.example"), ("connection", asciiBytes "Upgrade"), ("upgrade", asciiBytes "websocket"),
+     ("sec-websocket-version", asciiBytes "13"), ("sec-websocket-key", witnessKey),
+     ("sec-websocket-protocol", asciiBytes "penguin-v7"), ("x-penguin-psk", asciiBytes "correct PSK"),
+     ("x-trace", asciiBytes "1")] := by decide
+-- the client accepts the 101 and not the 404
+example : clientAccepts (buildRequest cliOdd witnessKey).headers (respond cfgPsk (buildRequest cliOdd witnessKey)) = true := by
+  decide +kernel
+example : clientAccepts (buildRequest { cliOdd with psk := none } witnessKey).headers
+    (respond cfgPsk (buildRequest { cliOdd with psk := none } witnessKey)) = false := by decide +kernel
+-- what is not sent
+example : sent { cliOdd with hostname := some [0xc3, 0xbc] } witnessKey = .error .hostnameNotText := by decide
+example : sent { cliOdd with custom := [("upgrade", [0x77, 0xc3, 0xa9])] } witnessKey = .error (.valueNotText "upgrade") := by decide
+example : sent cliOdd witnessKey = .ok (buildRequest cliOdd witnessKey) := by decide
+-- padding: the same padded key on both sides is refused on arrival; `--ws-psk` drops the padding
+example : route { cfgPsk with psk := some (asciiBytes " k") }
+    (received (buildRequest { cliOdd with psk := some (asciiBytes " k") } witnessKey)) = .fallback := by decide +kernel
+example : parsePsk (asciiBytes " \tk e y\t ") = asciiBytes "k e y" := by decide
+example : trimOws (asciiBytes "  ") = [] := by decide
+-- URLs
+example : normalizeUrl { scheme := "https", authority := some "server.example", hasPort := false, pathAndQuery := some "/ws" } =
+    .ok { scheme := "wss", authority := "server.example", addedPort := some 443, target := "/ws" } := by decide
+example : normalizeUrl { scheme := "ws", authority := some "server.example:8080", hasPort := true, pathAndQuery := none } =
+    .ok { scheme := "ws", authority := "server.example:8080", addedPort := none, target := "/" } := by decide
+example : normalizeUrl { scheme := "WS", authority := some "server.example", hasPort := false, pathAndQuery := none } =
+    .error .incorrectScheme := by decide
+example : normalizeUrl { scheme := "ws", authority := none, hasPort := false, pathAndQuery := none } = .error .missingHost := by
+  decide
+example : route cfgOpen (buildRequest { cliOdd with target := "/" } witnessKey) = .fallback := by decide +kernel
+
+end ClientExamples
+
+end ClientRequest
 
 end Penguin.C14
